@@ -1058,6 +1058,8 @@ class Result:
         full_l:Union[str, Sequence[str]]='learner_id',
         full_p:Union[str, Sequence[str]]='environment_id'):
 
+        if p is None: p = full_p #the documented default
+
         only_finished = self.filter_fin(l=full_l,p=full_p)
 
         environments = only_finished.environments
